@@ -282,7 +282,7 @@ def parse_module(text):
 
 LINKAGE = {'private','internal','linkonce_odr','linkonce','weak','weak_odr','external','common','available_externally',
     'dso_local','dso_preemptable','unnamed_addr','local_unnamed_addr','hidden','default','protected','thread_local',
-    'externally_initialized','appending','extern_weak'}
+    'externally_initialized','appending','extern_weak','fastcc','ccc','coldcc'}
 
 def parse_global(m, l):
     p = P(lex(l), m); name = p.next()[1]; p.expect('=')
